@@ -202,5 +202,7 @@ func maxf(a, b float64) float64 {
 var expectedProbes = map[string][]string{
 	"C02": {"eof-before-warm-up", "counts-checked"},
 	"C03": {"eof-before-warm-up", "unequal-eof", "compared-with-canonical", "buffered-inputs"},
+	"C04": {"producer-stalled-quiescence-observations", "eof-at-cut-point", "suffix-altered-after-cut-point", "cases-proved-by-causality", "cases-with-late-positions", "prefix-runs-compared", "suffix-runs-compared"},
 	"C05": {"eof-before-warm-up", "action-streams-checked"},
+	"C16": {"unequal-eof", "empty-input", "eof-within-parameter-window", "model-compared"},
 }
